@@ -163,8 +163,26 @@ func c07inventory(c *Ctx) {
 					held = true
 				}
 			}
-			ok = built && rec && create && held
-			why = sprintf("totals built from the device parameter=%v, record of the nodeName parameter=%v created if needed=%v, under a write lock=%v", built, rec, create, held)
+			// and the install cannot be skipped for a real event (no 'inventory unchanged' shortcut: invalidation zeroes the
+			// totals but keeps what such a shortcut would compare)
+			f := an.Facts{fn.Params[2]: an.NonNil}
+			for _, b2 := range fn.Blocks {
+				for _, in2 := range b2.Instrs {
+					if bo, isBo := in2.(*ssa.BinOp); isBo && isParamOf(fn, bo.X, 0) {
+						if s2, isC := constString(bo.Y); isC && s2 == "" {
+							if bo.Op == token.EQL {
+								f[bo] = an.False
+							} else if bo.Op == token.NEQ {
+								f[bo] = an.True
+							}
+						}
+					}
+				}
+			}
+			reach := an.Explore(fn, nil, f, func(in2 ssa.Instruction) bool { return in2 == ssa.Instruction(cl) })
+			always := len(reach.Returns()) == 0
+			ok = built && rec && create && held && always
+			why = sprintf("totals built from the device parameter=%v, record of the nodeName parameter=%v created if needed=%v, under a write lock=%v, on every path=%v", built, rec, create, held, always)
 		}
 		r.Check(ok, "PATH", key+"/installs-reported-inventory", c.Pos(fn.Pos()), "the reported inventory of this node is installed under its lock", "the inventory update is wired wrongly: "+why)
 	}
